@@ -1214,7 +1214,7 @@ func validCloseCode(code int) bool {
 		return true //       | Internal Server | hybi@ietf.org | RFC 6455  |
 		//     |            | Error           |               |           |
 	case 1015:
-		return true //  | TLS handshake   | hybi@ietf.org | RFC 6455
+		return false //  | TLS handshake   | hybi@ietf.org | RFC 6455, must not be sent in a close frame
 	default:
 	}
 	// IANA registration policy and should be granted in the range 3000-3999.
